@@ -92,6 +92,16 @@ func genC15(seed uint64, run int, tier string) *RunSpec {
 			{Content: `<html><body class="late-base"><div v-html="content"></div></body></html>`, MtimeNs: mt(1)},
 		}})
 	}
+	// a layout of the same name NEXT TO the page (pages/<name>.vuego takes precedence over layouts/<name>.vuego):
+	// it may appear and disappear too - where a layout name resolves to is decided at every render
+	if g.on("layout") && r.Chance(40) {
+		ln := Pick(r, []string{"post", "plain"})
+		files = append(files, FileSpec{Name: "pages/" + ln + ".vuego", Initial: 0, Versions: []FileVersion{
+			{Deleted: true, MtimeNs: mt(0)},
+			{Content: `<div class="near-` + ln + `"><div v-html="content"></div></div>`, MtimeNs: mt(2)},
+			{Deleted: true, MtimeNs: mt(3)},
+		}})
+	}
 	spec.Files = files
 	spec.Engine = randomEngine(r, g.Eng)
 	spec.Engine.Components = false
